@@ -93,6 +93,10 @@ fn main() {
         std::process::exit(EXIT_INCONCLUSIVE)
     };
     let mut ctx = Ctx::new(&id, tier, seed);
+    if stage.as_deref() == Some("traced") && !ivh::trace::install() {
+        eprintln!("cannot install the tracing subscriber");
+        std::process::exit(EXIT_INCONCLUSIVE)
+    }
     ctx.stage = stage;
     ctx.shard = shard;
     ctx.replay = replay;
@@ -129,6 +133,16 @@ fn main() {
             ("exploration", "run aborted by a panic outside the monitors".to_string(), false)
         },
     };
+    if ctx.stage.as_deref() == Some("traced") {
+        use std::sync::atomic::Ordering;
+        let (ev, sp) = (ivh::trace::EVENTS.load(Ordering::Relaxed), ivh::trace::SPANS.load(Ordering::Relaxed));
+        ctx.extra("tracing_events_formatted", serde_json::json!(ev));
+        ctx.extra("tracing_spans_formatted", serde_json::json!(sp));
+        ctx.extra("tracing_bytes_formatted", serde_json::json!(ivh::trace::BYTES.load(Ordering::Relaxed)));
+        if ev + sp == 0 {
+            ctx.inconclusive("the tracing subscriber was installed but received no span or event".to_string());
+        }
+    }
     if let Some(sig) = &replay_sig {
         let again = ctx.part.violations.iter().any(|v| &v.signature == sig);
         println!("[replay] recorded signature {} {}", sig, if again { "REPRODUCED" } else { "did not reproduce on the current tree" });
